@@ -27,7 +27,7 @@ Strings(alpha, n) == UNION { [1..k -> alpha] : k \in 1..n }
 
 RepoAlpha == {"a", "Z", "7", "-", "<L>", "<N>", "<H>"}
 LabelAlpha == RepoAlpha \cup {"_", "<C>"}
-AnyAlpha == LabelAlpha \cup {"/", ".", " ", ":", "#", "!", "<M>", "<S>", "<Z>", "<O>", "<BAD>", "<LF>", "<NUL>"}
+AnyAlpha == LabelAlpha \cup {"/", ".", " ", ":", "#", "!", "<M>", "<S>", "<Z>", "<O>", "<D>", "<BAD>", "<LF>", "<NUL>"}
 
 MinKsuid == S("000000000000000000000000000")
 SomeKsuid == S("1Jbb3SicFGoKB7JQJZdCCwdBQwE")
@@ -172,7 +172,7 @@ NameCase(n, desc) ==
    labelBadAfterMultibyte |-> BadAfterMultibyte("label", n)]
 CuratedNames == HostileNames \cup Decoys
                 \cup {<<"<L>", "<L2>", "!", "a">>, <<"<N>", "<N>", "/", "a">>, <<"a", "b", "!", "<L>">>,
-                      <<"<C>", "<C>", "<S>">>, <<"<H>", " ">>, <<"<M>">>, <<"a", "<L>", "<Z>", "b">>, <<"<K1>">>}
+                      <<"<C>", "<C>", "<S>">>, <<"<H>", " ">>, <<"a", "<D>", "b">>, <<"<D>">>, <<"<L>", "<D>">>, <<"<M>">>, <<"a", "<L>", "<Z>", "b">>, <<"<K1>">>}
 
 \* ---- descriptors: type x focused field x value class, the other fields rotate
 StrClasses == <<"empty", "plain", "unicode", "colon", "hash", "leadspace", "trailspace", "multiline", "quotes",
